@@ -1,22 +1,20 @@
 from props.shapes import *
 SC = {1: "encode(shared) || encode(shared)", 2: "encode(shared) || destroy(own instance listed before it)", 3: "first-ever create RS || create RS",
       4: "create XOR || create XOR", 5: "encode(shared RS) || create+destroy own RS", 6: "destroy own RS || encode(shared RS)"}
-# yield points at which the listed findings manifest (see known_findings.txt); the -excl twin assumes them away and must be fully discharged
-EXCL = {2: "2", 3: "10,11,12"}
+YIELDS = {1: [0, 1, 2, 6, 99], 2: [0, 1, 2, 6, 99], 3: [0, 5, 10, 11, 12, 99], 4: [0, 5, 99], 5: [0, 1, 2, 6, 99], 6: [0, 1, 2, 3, 4, 8, 13, 14, 99]}
 def plan(ctx):
     obs = []
     U = real_crc_units()
     for sc in sorted(SC):
-        for excl in ((0, 1) if sc in EXCL else (0,)):
-            defs = dict(SCEN=sc)
-            if excl: defs["EXCL_YIELDS"] = EXCL[sc]
-            obs.append(Ob(id=f"sched-scen{sc}" + ("-excl" if excl else ""), harness="c18.c", defs=defs, units=U, unwind=8, unwindset={"crc32.0": 84, "crc32.1": 84, "liberasurecode_backend_alloc_desc.0": 8},
-                          timeout=1800, mem_gb=8,
-                          sample={"symbolic": "pre-emption point (yield id 0..99), 2x4 data bytes", "scenario": SC[sc], "excluded_yield_points": EXCL[sc] if excl else None},
-                          targets=["liberasurecode_backend_instance_get_by_desc", "liberasurecode_backend_instance_register", "liberasurecode_backend_instance_unregister",
-                                   "liberasurecode_instance_create", "liberasurecode_instance_destroy", "liberasurecode_encode", "rs_galois_init_tables", "rs_galois_deinit_tables"]))
+        for y in YIELDS[sc]:
+            for occ in ((1,) if y in (0, 99) else ((1, 2) if ctx.tier == "quick" else (1, 2, 3))):
+                obs.append(Ob(id=f"sched-scen{sc}-y{y}-occ{occ}", harness="c18.c", defs=dict(SCEN=sc, YIELD=y, OCC=occ), units=U, unwind=8,
+                              unwindset={"crc32.0": 84, "crc32.1": 84, "liberasurecode_backend_alloc_desc.0": 8}, timeout=1200, mem_gb=4,
+                              sample={"symbolic": "2x4 data bytes", "scenario": SC[sc], "preemption": f"B runs when A reaches yield point {y} for the {occ}. time (0: before A, 99: after A)"},
+                              targets=["liberasurecode_backend_instance_get_by_desc", "liberasurecode_backend_instance_register", "liberasurecode_backend_instance_unregister",
+                                       "liberasurecode_instance_create", "liberasurecode_instance_destroy", "liberasurecode_encode", "rs_galois_init_tables", "rs_galois_deinit_tables"]))
     return {"obs": obs,
-            "assumptions": ["context-bounded under-approximation: 2 threads, one operation each, ONE pre-emption of A by a complete operation of B at an instrumented yield point (8 points in erasurecode.c, 5 in rs_galois.c); other schedules, more threads and finer-grained interleavings are outside the claim",
+            "assumptions": ["context-bounded under-approximation: 2 threads, one operation each, ONE pre-emption of A by a complete operation of B at an instrumented yield point (8 points in erasurecode.c, 5 in rs_galois.c), at its 1st or 2nd (thorough: 3rd) occurrence; other schedules, more threads and finer-grained interleavings are outside the claim",
                             "CBMC's own thread support rejects this code base ('pointer handling for concurrency is unsound'), hence the hook-based sequentialisation",
-                            "a B that needs the registry write lock while A holds it is blocked (schedule infeasible)"],
+                            "a B that needs the registry write lock while A holds it is blocked (schedule infeasible): for create||create the yield points 1, 2 and 7 lie inside A's critical section, so those obligations would be vacuous and are not generated"],
             "trusted": ENV_TRUST + GF_TRUST + ["yield hooks in /repo (guard LIBERASURECODE_VERIF)"]}
